@@ -1,6 +1,6 @@
 //! Helpers shared by the monitors: definition alphabets, byte-noise vectors, mutators.
 
-use crate::deriv::{Line, Role};
+use crate::deriv::{Line, Role, UKind, U};
 use crate::json::{show_argv, J};
 use crate::rng::Rng;
 use crate::spec::*;
@@ -424,3 +424,20 @@ pub fn subst_bytes(v: &mut V, old: &[u8], new: &[u8]) {
         _ => {}
     }
 }
+
+/// the command level that is active after the first `upto` units of a line
+pub fn level_at<'a>(spec: &'a OptSpec, units: &[U], upto: usize) -> &'a OptSpec {
+    // follow the command names left of `upto`
+    let mut cur = spec;
+    for u in &units[..upto.min(units.len())] {
+        if let UKind::CmdName { id, .. } = &u.kind {
+            let mut cmds = Vec::new();
+            cur.root.level_cmds(&mut cmds);
+            if let Some(c) = cmds.into_iter().find(|c| c.id == *id) {
+                cur = &c.opts;
+            }
+        }
+    }
+    cur
+}
+
